@@ -85,6 +85,12 @@ class Derivate:
         knotvector = curve.knotvector
         matrix = heavy.Calculus.derivate_nonrational_spline(tuple(knotvector))
         ctrlpoints = np.dot(matrix, curve.ctrlpoints)
+        degree = knotvector.degree
+        ctrlpoints = [  # Drop the terms whose basis function has empty support
+            point
+            for j, point in enumerate(ctrlpoints, 1)
+            if knotvector[j + degree] != knotvector[j]
+        ]
         nodes = tuple(
             knot
             for knot in knotvector.knots
